@@ -21,7 +21,14 @@ DoNext == /\ run < MAXRUN /\ A!NextSequence /\ P!NextSequence
           /\ run' = run + 1 /\ UNCHANGED sets
 DoSet == /\ sets < MAXSETS /\ \E s \in STARTS : A!SetStart(s) /\ P!SetStart(s) /\ hist' = Append(hist, [op |-> "set", kind |-> s.kind, value |-> s.value])
          /\ run' = 0 /\ sets' = sets + 1
-Next == DoNext \/ DoSet
+\* an unreadable start: installed like any other, a request fails (at most once in a row here), then the value arrives
+DoSetPending == /\ sets < MAXSETS /\ A!SetStart([kind |-> "pending", value |-> 0]) /\ P!SetStart([kind |-> "pending", value |-> 0])
+                /\ hist' = Append(hist, [op |-> "set", kind |-> "pending", value |-> 0]) /\ run' = 0 /\ sets' = sets + 1
+DoFail == /\ hist[Len(hist)].op # "next_fail" /\ A!FailedRequest /\ P!FailedRequest
+          /\ hist' = Append(hist, [op |-> "next_fail"]) /\ UNCHANGED <<run, sets>>
+DoResolve == /\ \E v \in {5, 1000} : A!Resolve(v) /\ P!Resolve(v) /\ hist' = Append(hist, [op |-> "resolve", value |-> v])
+             /\ UNCHANGED <<run, sets>>
+Next == DoNext \/ DoSet \/ DoSetPending \/ DoFail \/ DoResolve
 Spec == Init /\ [][Next]_vars
 
 TypeOK == A!TypeOK
@@ -30,5 +37,5 @@ Lockstep == A!Lockstep
 UpdateKeepsCounter == A!UpdateKeepsCounter
 TwoPeers == last = plast /\ counter = pcounter
 \* always TRUE; prints maximal histories
-Emit == (EMIT /\ sets = MAXSETS /\ run = MAXRUN) => PrintT(ToJson([hist |-> hist]))
+Emit == (EMIT /\ sets = MAXSETS /\ run = MAXRUN /\ ~A!Unreadable(start)) => PrintT(ToJson([hist |-> hist]))
 =============================================================================
